@@ -97,7 +97,7 @@ int disasm_ebpf(
 
   strcpy(instruction, "???");
 
-  return 2;
+  return 8;
 }
 
 void list_output_ebpf(
